@@ -92,7 +92,7 @@ def build(variant):
 
 # ------------------------------------------------------------------ histories
 
-C_INPUTS = ["fib", "prepro", "structs", "loops", "funcptr", "empty"]
+C_INPUTS = ["fib", "prepro", "structs", "loops", "funcptr", "incomplete", "empty"]
 LINKS = ["interp", "gen", "lazy", "lazybb"]
 
 
@@ -119,6 +119,12 @@ def histories(tier, seed, variant="plain"):
         H.append(hist("scanstr:jcall", "gen", 0))        # gen: `run` is generated at link time (it is never called)
         H.append(hist("scanstr:jcall", LINKS[1 + (seed + 1) % 3], 1 + seed % 3))
         # a call of an external function with 70 arguments, interpreted and generated
+        # a loop with two entries, generated with the loop-tree passes (levels 1..3)
+        H.append(hist("scanstr:irreducible", "gen", 1 + seed % 3))
+        H.append(hist("scanstr:irreducible", LINKS[(seed + 2) % 4], 2))
+        # a module moved to another context whose first context is finished before the module is used
+        H.append(hist("movectx", "gen", 1 + seed % 2))
+        H.append(hist("movectx", LINKS[seed % 4], seed % 4))
         H.append(hist("scanstr:manyargs", "interp"))
         H.append(hist("scanstr:manyargs", LINKS[1 + seed % 3], seed % 4))
         if variant == "plain":
@@ -135,7 +141,7 @@ def histories(tier, seed, variant="plain"):
     else:
         for o in range(3):
             H.append(hist("bigcode", "gen" if (o + seed) % 2 else "lazy", o, rep=3))
-        srcs = apis + ["scanstr:jcall", "scanstr:manyargs"] + ["scan:" + m for m in mirs] + ["bin:" + m for m in mirs] + ["c2m:" + c for c in C_INPUTS]
+        srcs = apis + ["scanstr:jcall", "scanstr:manyargs", "scanstr:irreducible", "movectx"] + ["scan:" + m for m in mirs] + ["bin:" + m for m in mirs] + ["c2m:" + c for c in C_INPUTS]
         n = 0
         for s in srcs:
             H.append(hist(s, "none", out=1))
